@@ -132,7 +132,7 @@ def one(tag, factory, rng):
             rows.append([k, quantise(v.real, u), quantise(v.imag, u), quantise(ref.real, u), quantise(ref.imag, u)])
         ev.append({"e": "Exponent", "rows": rows})
         rows = []
-        t = rng.choice([0.5, 1.0, 2.0])
+        t = rng.choice([0.5, 2.0, 3.0])          # never 1: t and 1 / t must differ
         refs = {1: a + integral(lambda y: complex((y - h(y)) * dens(y))).real, 2: s * s + integral(lambda y: complex(y * y * dens(y))).real}
         for n in (4, 6):
             refs[n] = integral(lambda y: complex(y ** n * dens(y))).real
@@ -144,9 +144,46 @@ def one(tag, factory, rng):
             u = 1e-7 * max(1e-3, abs(refs[n]))
             rows.append([n, quantise(v, u), quantise(refs[n], u)])
         ev.append({"e": "Cumulant", "rows": rows})
+        if tag in ("hem", "hem_nosigma", "merton", "merton_nosigma"):
+            ev.append(jump_law(tag, m, rng))
     except Exception as ex:
         ev.append({"e": "Raise", "what": type(ex).__name__ + ": " + str(ex)[:80]})
     return {"hdr": hdr, "ev": ev}
+
+
+def jump_law(tag, m, rng):
+    """model.jump_increment with its random source scripted, against the model's own Levy measure: the side of a jump is
+    chosen with the mass of that half-line, its size by inversion of the measure's tail on that side (HEM: two uniforms
+    per jump); Merton: mu_j + sigma_j w for the scripted normal w, i.e. nu(-inf, z] / lambda = Phi(w)"""
+    from scipy.stats import norm
+    nu = m.levy_triplet.nu
+    lam = float(nu.integrate(-np.inf, np.inf))
+    rows = []
+    saved = (np.random.random, np.random.normal)
+    try:
+        if tag.startswith("hem"):
+            n = 12
+            us = [(2 * rng.randrange(32) + 1) / 64 for _ in range(n)]
+            vs = [(2 * rng.randrange(32) + 1) / 64 for _ in range(n)]
+            feed = [np.array(us), np.array(vs)]
+            np.random.random = lambda size=None: feed.pop(0)
+            z = np.ravel(m.jump_increment(n))
+            pplus = float(nu.integrate(0.0, np.inf)) / lam
+            for u, v, zi in zip(us, vs, z):
+                zi = float(zi)
+                side_ok = 1 if ((zi > 0) == (u < pplus)) else 0
+                tail = float(nu.integrate(zi, np.inf)) / float(nu.integrate(0.0, np.inf)) if zi > 0 else \
+                    float(nu.integrate(-np.inf, zi)) / float(nu.integrate(-np.inf, 0.0))
+                rows.append([side_ok, quantise(tail, 1e-9), quantise(1.0 - v, 1e-9)])
+        else:
+            ws = [rng.uniform(-2.5, 2.5) for _ in range(10)]
+            np.random.normal = lambda loc=0.0, scale=1.0, size=None: loc + scale * np.array(ws)
+            z = np.ravel(m.jump_increment(len(ws)))
+            for w, zi in zip(ws, z):
+                rows.append([1, quantise(float(nu.integrate(-np.inf, float(zi))) / lam, 1e-9), quantise(float(norm.cdf(w)), 1e-9)])
+    finally:
+        np.random.random, np.random.normal = saved
+    return {"e": "JumpLaw", "rows": rows}
 
 
 def main():
